@@ -110,6 +110,13 @@ CLAIMED = {
         note="The per-call contracts are proofs; the statement for whole documents rests on the bounded enumeration (stated). The nesting check itself was missing on the pinned tree and was repaired (fix 05cd1d5).",
         technique="contracts on _feedmatch/_start/close over a ghost element stack (pyvc + z3); bounded fault enumeration",
         engine="pyvc"),
+    "C05": dict(
+        category="proof",
+        text="parse_header on an abstract byte stream: for each v1 layout (separators CRLF/LF/CR/none, blanks after the colon, leading blank lines incl. CR-only, gap before the body none/CRLF/2 CRLF/CR, three character sets) with the NEWFILEUID characters and the body bytes symbolic over every byte value, the returned header has equal fields and the returned text is exactly the bytes from '<' to '>' decoded with the codec the CHARSET declares (offset arithmetic, readline splitting, regex groups and codec selection all on the real code); the codec table is proved for every CHARSET x ENCODING.",
+        design_ref="DESIGN.md 9 (C05)",
+        note="Shape-bounded: 3 body bytes, 2 UID characters, the listed layouts (58+ in quick, the cross product in thorough). v2 files, longer bodies, UTF-8 multi-byte sequences, trailing whitespace: bounded exhaustive run (about 50 000 v1 files, 400 v2 files) against a reference splitter. Four genuine defects found here were repaired. Known finding KF-C12-v1-version-range shared with C12.",
+        technique="contracts on parse_header over a symbolic byte stream with the symbolic regex matcher (pyvc + z3); bounded layout enumeration",
+        engine="pyvc"),
 }
 
 
